@@ -5,6 +5,7 @@ from vf import oracles as O
 from vf.props import c01
 from vf.runner import hyp_run, run_cases, guard, fail, exc_failure
 
+THOROUGH_SCALE = 5      # multiplies every generated-case budget of the thorough tier
 RULE = ("(a) peaks (tth in (0,180), eta, omega) x wavelength x wedge x chi x omegasign: |g| = 2 sin(theta)/lambda on "
         "every route, invariance of |g|, rigid rotation with omega; (b) g-vectors: uniform directions x |g| in "
         "[0, 2.4/lambda] with 15% inside the blind cone (|g_perp| <= 0.02|g|), a class with |g| > 2/lambda, g on the "
